@@ -31,7 +31,7 @@ ASSUMPTIONS = ["polars null semantics: a null predicate drops the row in filter;
 COLS = {"ia": "int", "ib": "int", "fa": "float", "fb": "float", "sa": "str", "sb": "str", "ba": "bool"}
 BAD = ["z", "y", "x", "zvec", "yvec", "xvec"]
 DF_OPS = {"filter", "sort", "head", "tail", "sample", "group_by", "cutby"}
-NP_OPS = {"subset", "concat", "concat_with", "append", "copy", "with_features", "drop_features"}
+NP_OPS = {"subset", "concat", "concat_with", "append", "alias_append", "copy", "with_features", "drop_features"}
 
 
 def pos_of(uid):
@@ -337,7 +337,9 @@ def judge(d):
                     parts_m.append(models[tk])
                 if not nullable and not all(p.cols == cols for p in parts_m):
                     nullable = True
-                res = Molecules.concat(parts_r, nullable=nullable)
+                # any iterable of molecules, also a one-shot generator
+                arg = parts_r if not op.get("as_iter") else (iter(parts_r) if op["as_iter"] == 1 else (p_ for p_ in parts_r))
+                res = Molecules.concat(arg, nullable=nullable)
             else:
                 parts_m = [mt, m2]
                 res = real.concat_with(r2, nullable=nullable)
@@ -362,6 +364,28 @@ def judge(d):
                 if res is not real:
                     out.append(viol("C12/append-not-inplace", f"{tag}: append did not return self"))
                 models[ti] = MTable(cols, mt.rows + [{"uid": r["uid"], "f": {c: r["f"].get(c) for c in cols}} for r in m2.rows])
+        elif name == "alias_append":
+            # a second table built from this one without changing it (copy / concat of one / concat_with an empty table) must
+            # not change when rows are appended to the first one (or the other way round)
+            if n == 0 or mt.has_bad():
+                continue
+            how = op["how"]
+            if how == "copy":
+                alias = real.copy()
+            elif how == "concat1":
+                alias = Molecules.concat([real])
+            else:
+                alias = real.concat_with(Molecules.empty())
+            add(alias, mt.copy())
+            k_rows = max(1, n // 2)
+            extra_r = real.subset(slice(0, k_rows))
+            extra_rows = [{"uid": r["uid"], "f": dict(r["f"])} for r in mt.rows[:k_rows]]
+            if op["target"] == 0:
+                real.append(extra_r)
+                models[ti] = MTable(cols, mt.rows + extra_rows)
+            else:
+                alias.append(extra_r)
+                models[-1] = MTable(cols, models[-1].rows + extra_rows)
         elif name == "with_features":
             src = [c for c in cols if COLS.get(c) in ("int", "float")]
             if not src or n == 0:
@@ -477,7 +501,7 @@ masks = st.lists(st.booleans(), max_size=8)
 @st.composite
 def op_strategy(draw, palette):
     name = draw(st.sampled_from(["new", "copy", "subset", "subset", "filter", "filter", "sort", "head", "tail",
-                                 "sample", "concat", "concat_with", "append", "with_features", "drop_features",
+                                 "sample", "concat", "concat", "concat_with", "append", "alias_append", "with_features", "drop_features",
                                  "group_by", "cutby", "reject"]))
     op = {"op": name, "t": draw(T)}
     if name == "new":
@@ -507,6 +531,10 @@ def op_strategy(draw, palette):
         op["t3"] = draw(T)
         op["three"] = draw(st.booleans())
         op["nullable"] = draw(st.booleans())
+        op["as_iter"] = draw(st.sampled_from([0, 0, 1, 2]))
+    elif name == "alias_append":
+        op["how"] = draw(st.sampled_from(["copy", "concat1", "concat_with_empty"]))
+        op["target"] = draw(st.integers(0, 1))
     elif name in ("with_features", "drop_features"):
         op["ci"] = draw(st.integers(0, 5))
     elif name == "group_by":
